@@ -46,3 +46,29 @@ CHECKS["C35"] = dict(
 
 # properties not claimed (reason shown in MANIFEST.not_applicable)
 PENDING = {}
+
+CHN = "0chain.net/chaincore/chain"
+CHECKS["C40"] = dict(
+    level="exploration", engine="E2",
+    technique="stateful property-based testing against a floor-lookup reference model (round storage and Chain.GetMagicBlock), boundary-directed queries",
+    level_text="Generated Put/Prune histories over the real round-starting storage and SetMagicBlock/PruneRoundStorage histories over a real Chain object are compared with an independent floor-lookup model at every boundary round (s-1, s, s+1, and the whole view-change offset window) plus drawn rounds.",
+    level_note="'Rounds at or after the pruned point' is read as rounds at or after the first retained starting round (Prune removes the named entry itself, which is PruneRoundStorage's contract). Pruning is generated the way the chain prunes (keep newest k >= 1).",
+    parts=[
+        dict(pkg=RND, run="^TestC40_Storage$", quick=4000, thorough=200000, steps=25, floor=50),
+        dict(pkg=CHN, run="^TestC40_ChainLookup$", quick=1500, thorough=80000, steps=15, floor=20),
+    ],
+)
+CHECKS["C42"] = dict(
+    level="exploration", engine="E2",
+    technique="metamorphic property-based testing (two insertion orders must give the same replicator set) plus cardinality oracles",
+    level_text="Two Chain objects with the same derived sharders inserted in different generated orders must compute identical replicator sets for generated hashes (including low-entropy hashes that force score ties); cardinality and disabled-replication clauses are checked directly.",
+    level_note="Sharder ids come from derived BLS keys; the XOR scorer and pool are the real ones; 'enough sharders' is read as n >= replicators.",
+    parts=[dict(pkg=CHN, run="^TestC42_Replicators$", quick=2000, thorough=160000, floor=50)],
+)
+CHECKS["C36"] = dict(
+    level="exploration", engine="E2",
+    technique="property-based testing over generated block trees against a reference common-ancestor computation (differential oracle)",
+    level_text="Generated notarized-block trees (forks, missing round objects, empty tip rounds, four kinds of parent link) are given to the real Chain.ComputeFinalizedBlock and compared with an independent level-by-level common-ancestor reference; repeatability and non-interference with the round objects are checked too.",
+    level_note="Parent links that would need the network (SyncPreviousBlocks) are not generated, except directly above the LFB where the code must answer 'none' locally. finalizeRound's channel hand-off is not driven here.",
+    parts=[dict(pkg=CHN, run="^TestC36_ComputeFinalizedBlock$", quick=3000, thorough=200000, floor=50)],
+)
